@@ -709,8 +709,8 @@ def run(ctx):
     WIDE = not quick
     total = distinct = 0
     total += design_level(ctx, kd)
-    dq = {"ngdp": 3, "tl": 3, "bbp": 3, "zcp": 3, "sized": 3, "zce": 3, "zcr": 3, "zcc": 3, "str": 3, "bg": 3}
-    dt = {"ngdp": 4, "tl": 4, "bbp": 4, "zcp": 4, "sized": 4, "zce": 3, "zcr": 3, "zcc": 3, "str": 3, "bg": 3}
+    dq = {"ngdp": 4, "tl": 4, "bbp": 3, "zcp": 4, "sized": 3, "zce": 3, "zcr": 3, "zcc": 3, "str": 3, "bg": 3}
+    dt = {"ngdp": 4, "tl": 4, "bbp": 4, "zcp": 4, "sized": 4, "zce": 4, "zcr": 3, "zcc": 3, "str": 4, "bg": 4}
     depth = dq if quick else dt
     plan = [(f, dict(family=f, depth=depth[f])) for f in ("ngdp", "tl", "bbp", "zcp", "sized", "zce", "zcr", "zcc", "str", "bg")]
     plan += [("stream", dict(family="stream", depth=0, init="TabInit", next_="TabNext", invariants=("EmitTab",))),
